@@ -205,6 +205,25 @@ CLAIMED['C08'] = dict(
     technique='contract-based deductive verification: class invariant (data-set flag) preserved by every mutator, '
               'postcondition of set_length, symbolic execution of the real methods, z3/cvc5; writer model audited')
 
+CLAIMED['C07'] = dict(
+    text='Deductive proof with a loop invariant over the PDV loop of the real fsm.DIMSEDecoder.process: an arbitrary '
+         'P-DATA-TF (any number of PDVs) arrives at an arbitrary point of a fragment stream that satisfies the sender '
+         'contract proved under C06 (command fragments 1..1,3 whose payloads concatenate to C, then iff announced data '
+         'fragments 0..0,2 concatenating to D, any grouping into PDUs). Invariant: buffered command bytes ++ '
+         'undelivered == C until complete, then the message object exists on the decoded command set and the stream\'s '
+         'context; buffered or file-written data ++ undelivered == D; receiving <=> something outstanding. Obligations: '
+         'dsutils.decode is called on exactly C; completion is signalled exactly at the last fragment (a break leaves no '
+         'PDV unprocessed); at completion data set == D in memory, or the storage file holds callback-content ++ D and '
+         'is positioned at the reported start. _command_set_to_message maps each of the 23 command fields to the PS3.7 '
+         'class (all codes). AEBase.get_file/write_meta: start 0, preamble, meta built from the command set UIDs and the '
+         'negotiated transfer syntax.',
+    ref='4/C07',
+    note=TRUST + LOOPNOTE + 'pydicom reader/writer external: decode(C) = the transmitted command set, '
+         'write_file_meta_info arguments checked only; JOIN over a list of byte strings as a fold with ground lemma '
+         'instances; one decoder per message; a PDU carries fragments of one message',
+    technique='contract-based deductive verification: loop invariant with ghost stream state, assume-guarantee link '
+              'to the sender contract of C06, z3/cvc5')
+
 NOT_YET = {
 }
 
